@@ -316,6 +316,10 @@ fn precedence_job(seed: u64, j: usize, tier: Tier) -> Outcome {
                     );
                 }
             }
+            // the application's own start-up (start_tracer) must hand every resolved value to the
+            // tracer (no socket factory is installed on this thread or globally here: the spawned
+            // tracer thread ends at once with an error, only the configuration is looked at)
+            check_tracer_start(&cfg, &mut o, &replay);
             o.observe("option_state_pairs", format!("{}:{st:?}", op.name));
             if k == 0 && st == St::Both && j < 2 {
                 o.sample = Some(json!({"argv": case.argv, "toml": case.toml, "option_under_test": op.name}));
@@ -324,6 +328,75 @@ fn precedence_job(seed: u64, j: usize, tier: Tier) -> Outcome {
     }
     o.nontrivial = Some(format!("precedence:{}", op.name));
     o
+}
+
+/// `start_tracer` is the real function of app.rs (through a hook); the tracer it returns must be
+/// configured with the resolved values.
+fn check_tracer_start(cfg: &TrippyConfig, o: &mut Outcome, replay: &serde_json::Value) {
+    use std::net::{IpAddr, Ipv4Addr};
+    let target = IpAddr::V4(Ipv4Addr::new(10, 200, 0, 1));
+    let (index, pid) = (2usize, 4242u16);
+    let info = match guarded(|| trippy_tui::verif::start_tracer(cfg, "example.com", target, index, pid)) {
+        Ok(Ok(i)) => i,
+        Ok(Err(_)) => return, // the builder rejected the configuration: judged in part 2
+        Err(p) => {
+            o.violate("tracer_started_with_the_resolved_values", format!("panic|{}", p.site()), format!("start_tracer panicked at {}:{}: {}", p.file, p.line, p.message), replay.clone());
+            return;
+        }
+    };
+    let t = &info.data;
+    o.hit("tracer_started_with_the_resolved_values");
+    let pairs: Vec<(&str, String, String)> = vec![
+        ("protocol", format!("{:?}", t.protocol()), format!("{:?}", cfg.protocol)),
+        ("privilege-mode", format!("{:?}", t.privilege_mode()), format!("{:?}", cfg.privilege_mode)),
+        // (Tracer::source_addr() is the address in use once the run has started, not the option)
+        ("interface", format!("{:?}", t.interface()), format!("{:?}", cfg.interface.as_deref())),
+        ("packet-size", t.packet_size().0.to_string(), cfg.packet_size.to_string()),
+        ("payload-pattern", t.payload_pattern().0.to_string(), cfg.payload_pattern.to_string()),
+        ("tos", t.tos().0.to_string(), cfg.tos.to_string()),
+        ("icmp-extensions", format!("{:?}", t.icmp_extension_parse_mode()), format!("{:?}", cfg.icmp_extension_parse_mode)),
+        ("read-timeout", format!("{:?}", t.read_timeout()), format!("{:?}", cfg.read_timeout)),
+        ("first-ttl", t.first_ttl().0.to_string(), cfg.first_ttl.to_string()),
+        ("max-ttl", t.max_ttl().0.to_string(), cfg.max_ttl.to_string()),
+        ("grace-duration", format!("{:?}", t.grace_duration()), format!("{:?}", cfg.grace_duration)),
+        ("max-inflight", t.max_inflight().0.to_string(), cfg.max_inflight.to_string()),
+        ("initial-sequence", t.initial_sequence().0.to_string(), cfg.initial_sequence.to_string()),
+        ("multipath-strategy", format!("{:?}", t.multipath_strategy()), format!("{:?}", cfg.multipath_strategy)),
+        ("port-direction", format!("{:?}", t.port_direction()), format!("{:?}", cfg.port_direction)),
+        ("min-round-duration", format!("{:?}", t.min_round_duration()), format!("{:?}", cfg.min_round_duration)),
+        ("max-round-duration", format!("{:?}", t.max_round_duration()), format!("{:?}", cfg.max_round_duration)),
+        ("max-samples", t.max_samples().to_string(), cfg.max_samples.to_string()),
+        ("max-flows", t.max_flows().to_string(), cfg.max_flows().to_string()),
+        ("max-rounds", format!("{:?}", t.max_rounds().map(|m| m.0.get())), format!("{:?}", cfg.max_rounds)),
+        ("target", t.target_addr().to_string(), target.to_string()),
+        ("trace-identifier", t.trace_identifier().0.to_string(), trippy_tui::verif::trace_identifier(pid, index).to_string()),
+    ];
+    for (name, got, want) in pairs {
+        if got != want {
+            o.violate("tracer_started_with_the_resolved_values", name, format!("the tracer was started with {name} = {got}, the resolved configuration says {want}"), replay.clone());
+        }
+    }
+    // the same for the front end configuration (the application's own make_tui_config)
+    let tui = trippy_tui::verif::make_tui_config(cfg, "en".to_string());
+    let pairs: Vec<(&str, String, String)> = vec![
+        ("tui-refresh-rate", format!("{:?}", tui.refresh_rate), format!("{:?}", cfg.tui_refresh_rate)),
+        ("tui-privacy-max-ttl", format!("{:?}", tui.privacy_max_ttl), format!("{:?}", cfg.tui_privacy_max_ttl)),
+        ("tui-preserve-screen", tui.preserve_screen.to_string(), cfg.tui_preserve_screen.to_string()),
+        ("tui-address-mode", format!("{:?}", tui.address_mode), format!("{:?}", cfg.tui_address_mode)),
+        ("dns-lookup-as-info", tui.lookup_as_info.to_string(), cfg.dns_lookup_as_info.to_string()),
+        ("tui-as-mode", format!("{:?}", tui.as_mode), format!("{:?}", cfg.tui_as_mode)),
+        ("tui-icmp-extension-mode", format!("{:?}", tui.icmp_extension_mode), format!("{:?}", cfg.tui_icmp_extension_mode)),
+        ("tui-geoip-mode", format!("{:?}", tui.geoip_mode), format!("{:?}", cfg.tui_geoip_mode)),
+        ("tui-max-addrs", format!("{:?}", tui.max_addrs), format!("{:?}", cfg.tui_max_addrs)),
+        ("geoip-mmdb-file", format!("{:?}", tui.geoip_mmdb_file), format!("{:?}", cfg.geoip_mmdb_file)),
+        ("tui-timezone", format!("{:?}", tui.timezone), format!("{:?}", cfg.tui_timezone)),
+        ("tui-custom-columns", format!("{}", tui.tui_columns), cfg.tui_custom_columns.0.iter().map(|x| format!("{x}")).collect::<String>()),
+    ];
+    for (name, got, want) in pairs {
+        if got != want {
+            o.violate("tracer_started_with_the_resolved_values", format!("tui|{name}"), format!("the front end was configured with {name} = {got}, the resolved configuration says {want}"), replay.clone());
+        }
+    }
 }
 
 fn strip(case: &mut Case, op: &Opt) {
@@ -564,13 +637,13 @@ fn cli_then_builder_job(seed: u64, j: usize, tier: Tier) -> Outcome {
 
 pub fn run(tier: Tier, seed: u64, only: Option<String>) -> i32 {
     let mut rep = Report::new("C16", "exploration", tier, seed);
-    rep.rule = "part 1: configurations are drawn with each of 41 options independently absent / in the file / on the command line / both with different values (real clap parser, real TOML parser, real build_config through a hook), repaired only in the background to respect the documented cross-option rules; every option is forced through all four states over 5 (thorough 500) backgrounds and EVERY option of every accepted configuration is compared with CLI > file > documented default; a rejection is re-tested without the option; derived fields (protocol shortcuts, -4/-6, port direction, max rounds from mode and report cycles) are modelled explicitly; part 2: every configuration accepted by the CLI layer goes through the same builder chain as start_tracer (hook) and runs 3 rounds over a simulated 3-hop path; the full categorical product protocol x strategy x port direction x privilege x family x extension mode (288) with boundary numerics (first/max ttl 0,1,254,255; inflight 0,1,255; sequence 0,64511,64512,65535; packet size 0..65535) goes through Builder::build alone: either build() returns an error or the run returns without panicking; distinct by (option | derived shard | builder parameters)".into();
+    rep.rule = "part 1: configurations are drawn with each of 41 options independently absent / in the file / on the command line / both with different values (real clap parser, real TOML parser, real build_config through a hook), repaired only in the background to respect the documented cross-option rules; every option is forced through all four states over 5 (thorough 500) backgrounds and EVERY option of every accepted configuration is compared with CLI > file > documented default; a rejection is re-tested without the option; derived fields (protocol shortcuts, -4/-6, port direction, max rounds from mode and report cycles) are modelled explicitly; every accepted configuration is also handed to the application's own start_tracer and make_tui_config (hooks that call the real functions) and the tracer / front end configuration they produce must carry every resolved value; part 2: every configuration accepted by the CLI layer goes through the same builder chain as start_tracer (hook) and runs 3 rounds over a simulated 3-hop path; the full categorical product protocol x strategy x port direction x privilege x family x extension mode (288) with boundary numerics (first/max ttl 0,1,254,255; inflight 0,1,255; sequence 0,64511,64512,65535; packet size 0..65535) goes through Builder::build alone: either build() returns an error or the run returns without panicking; distinct by (option | derived shard | builder parameters)".into();
     rep.assumptions = vec![
         "documented defaults are taken from trippy-config-sample.toml and the constants documented in --help".into(),
         "boolean flags cannot be switched off from the command line: 'both' means file=false, command line on".into(),
         "a run that ends with an error value (e.g. invalid packet size reported when the first probe is dispatched) is not a crash".into(),
     ];
-    rep.required_clauses = vec!["effective_value_is_cli_then_file_then_default", "derived_fields", "accepted_configuration_runs_without_panic", "default_is_the_documented_one"];
+    rep.required_clauses = vec!["effective_value_is_cli_then_file_then_default", "derived_fields", "accepted_configuration_runs_without_panic", "default_is_the_documented_one", "tracer_started_with_the_resolved_values"];
     let n_opts = options().len();
     let n_derived = tier.pick(8, 32);
     let n_builder = 288 * tier.pick(16, 80);
